@@ -687,6 +687,23 @@ example : ∃ s, hrun hinit [.allocPage, .write 0 [1, 2, 3], .refTo 0, .unrefBuf
     s.content 1 = [7, 7] := by
   refine ⟨_, rfl, ?_, ?_, ?_, ?_⟩ <;> decide
 
+open Model.Pages in
+/-- the same while the page's buffer is STILL decoding (`readMessage` of a v0/v1 set appends the next message's key and
+value to the buffer whose earlier ranges are already handed out): as long as nobody overwrites the page (`noOverwrite`:
+appends at its end are allowed — the only stores a decode buffer performs) and the holder keeps its count, the bytes a
+reference reads are a prefix of the page's content at every later time: they are never changed, only followed. -/
+theorem held_bytes_only_grow (pre es : List HEvent) (s : HState) (h : hrun hinit pre = some s) (p : Nat)
+    (hp : p ∈ s.ps.held) (hno : noOverwrite p es = true) :
+    ∀ s', hrun s es = some s' → (∀ k, k ≤ es.length → ∀ sk, hrun s (es.take k) = some sk → p ∈ sk.ps.held) →
+      s.content p <+: s'.content p :=
+  heap_grow_aux es s (hinv_run pre hinit s inv_init h) p hp hno
+
+open Model.Pages in
+/-- non-vacuity: key bytes referenced, then the same buffer appends the next message, another decode recycles a page -/
+example : ∃ s, hrun hinit [.allocPage, .append 0 [1, 2], .refTo 0, .append 0 [3, 4, 5], .allocPage, .unrefBuf 1,
+    .reusePage 0, .write 1 [7]] = some s ∧ 0 ∈ s.ps.held ∧ s.content 0 = [1, 2, 3, 4, 5] := by
+  refine ⟨_, rfl, ?_, ?_⟩ <;> decide
+
 /-! ### Timestamp type (attributes bit 3) -/
 
 /-- LogAppendTime: every record of the batch carries the batch's append time (`maxTimestamp`), whatever its delta -/
